@@ -80,7 +80,8 @@ class Sch:
     """One schema: text, parsed declarations, expected dictionaries, (after prepare) translated tries + harness."""
     def __init__(self, base, text, origin):
         self.base, self.text, self.origin = base, text, origin
-        self.schema = T3.parse_fbs(text)
+        self.files = T3.split_bundle(text, base)      # file base name -> text (the root file first)
+        self.schema = T3.parse_bundle(text, base)
         self.cnames, self.dicts = T3.dictionaries(self.schema, base)
         self.entries = None       # translate() result
         self.terr = None
@@ -93,6 +94,11 @@ class Sch:
 
     def enums(self):
         return [d for d in self.schema['decls'] if d['kind'] in ('enum', 'union')]
+
+    def visible_enums(self, decl):
+        """enum / union types visible to the file that declares `decl` (that file and everything it includes)"""
+        vis = self.schema['visible'][decl['file']]
+        return [d for d in self.enums() if d['file'] in vis]
 
     def root(self):
         r = self.schema['root']
@@ -321,6 +327,25 @@ def random_schema(rng, idx):
         fl.append('%s:%s' % (u, rng.choice(['U', 'U', '[U]']))); used.add(u); used.add(u + '_type')
         for x in sibs:
             if x not in used and x != u + '_type': fl.append('%s:int' % x); used.add(x)
-    o.append('table R {\n' + ''.join('  %s;\n' % x for x in fl) + '}')
-    o.append('root_type R;')
-    return '\n'.join(o) + '\n'
+    table = 'table R {\n' + ''.join('  %s;\n' % x for x in fl) + '}'
+    if rng.random() < 0.35:
+        # a qualified enum name that is also a namespace: `<P>.<E>` next to namespace `<P>.<E>` with enum `<F>`; the lengths put
+        # the end of `<P>.<E>` around the 8 / 16 byte window boundaries
+        tot = rng.choice([7, 8, 9, 15, 16, 17, rng.randint(3, 20)])
+        el = rng.randint(1, max(1, min(6, tot - 2)))
+        P, E, F = 'Q' + rand_ident(rng, max(1, tot - el - 1), IDCH).decode()[1:], rand_ident(rng, el).decode(), rand_ident(rng, rng.choice([1, 2, 7, 9])).decode()
+        if not ({P, E, F} & RESERVED) and P != 'N%d' % idx:
+            o.insert(0, 'namespace %s;\nenum %s : ubyte { Sa = 0, Sb = 3 }\nnamespace %s.%s;\nenum %s : ubyte { Ta = 0, Tb = 5 }\nenum %s_more : ubyte { Ua = 0, Ub = 6 }' % (P, E, P, E, F, F))
+    if rng.random() < 0.5:
+        o.append(table); o.append('root_type R;')
+        return '\n'.join(o) + '\n'
+    # several files: the enums (same namespace as the table) move into an included file, which itself includes a file
+    # with an enum of another namespace and one more of the same namespace
+    base = 'rnd%d' % idx
+    far = 'Far' + rand_ident(rng, rng.choice([1, 5, 13])).decode()
+    files = {
+        base: 'include "%s_types.fbs";\nnamespace N%d;\nenum Own%d : int { Oa = 0, Ob = 3 }\n%s\nroot_type R;\n' % (base, idx, idx, table),
+        base + '_types': 'include "%s_deep.fbs";\n' % base + '\n'.join(o) + '\n',
+        base + '_deep': 'namespace N%d.Deep;\nenum %s : short { Fa = 0, Fb = 9 }\nnamespace N%d;\nenum Deep%d : ubyte { Da = 0, Db = 200 }\n' % (idx, far, idx, idx),
+    }
+    return T3.join_bundle(files, base)
